@@ -168,7 +168,7 @@ fn timed(r: &Rec, serial: u64) -> TimedMessage {
 /// current snapshot, with the stored history of the entry (time stamp, message JSON) under `"~hist"`
 pub fn run_table(recs: &[&Rec]) -> Result<BTreeMap<String, Value>, String> {
     guarded(|| {
-        let app = tokio::sync::Mutex::new(Jet1090::default());
+        let app = std::sync::Arc::new(tokio::sync::Mutex::new(Jet1090::default()));
         let db = BTreeMap::new();
         for r in recs {
             let mut m = timed(r, 7);
@@ -176,8 +176,11 @@ pub fn run_table(recs: &[&Rec]) -> Result<BTreeMap<String, Value>, String> {
             let handed_on = TimedMessage { timestamp: m.timestamp, frame: m.frame.clone(), message: m.message.take(), metadata: m.metadata.clone(), decode_time: None, ..Default::default() };
             futures::executor::block_on(store_history(&app, handed_on, &db));
         }
+        // what the REST handlers serve for this table (the real web::all / web::track on the same mutex)
+        let web = web_views(&app, recs);
         let g = app.try_lock().expect("table is free");
-        g.state_vectors
+        let mut out: BTreeMap<String, Value> = g
+            .state_vectors
             .iter()
             .map(|(k, sv)| {
                 let mut v = serde_json::to_value(&sv.cur).expect("snapshot serialises");
@@ -187,8 +190,83 @@ pub fn run_table(recs: &[&Rec]) -> Result<BTreeMap<String, Value>, String> {
                 }
                 (k.clone(), v)
             })
-            .collect()
+            .collect();
+        if let Err(what) = web.and_then(|w| w.compare(&g)) {
+            out.insert("~web".into(), json!(what));
+        }
+        out
     })
+}
+
+/// Bodies served by the real `web::all` and `web::track` (no query time, and a query time in the middle of the history)
+struct WebViews {
+    all: String,
+    /// (key asked for, since, body)
+    tracks: Vec<(String, Option<f64>, String)>,
+}
+
+fn body_of(reply: warp::reply::Json) -> Result<String, String> {
+    use warp::Reply;
+    let resp = reply.into_response();
+    if resp.status() != warp::http::StatusCode::OK {
+        return Err(format!("status {}", resp.status()));
+    }
+    let bytes = futures::executor::block_on(warp::hyper::body::to_bytes(resp.into_body())).map_err(|e| format!("body: {e}"))?;
+    String::from_utf8(bytes.to_vec()).map_err(|e| format!("body is not UTF-8: {e}"))
+}
+
+fn web_views(app: &std::sync::Arc<tokio::sync::Mutex<Jet1090>>, recs: &[&Rec]) -> Result<WebViews, String> {
+    let all = body_of(futures::executor::block_on(crate::web::all(app)).map_err(|_| "infallible".to_string())?)?;
+    let mut keys: BTreeSet<String> = recs.iter().filter_map(|r| r.shown.clone()).collect();
+    // addresses that are not in the table: another spelling of a shown one, and one never seen
+    if let Some(k) = keys.iter().next().cloned() {
+        keys.insert(k.to_uppercase());
+        keys.insert(k.trim_start_matches('0').to_string());
+    }
+    keys.insert("abcdef".into());
+    if keys.len() > 8 {
+        // large fleets: the first, the last and four more
+        let v: Vec<String> = keys.iter().cloned().collect();
+        keys = [0, 1, v.len() / 3, v.len() / 2, v.len() - 2, v.len() - 1].iter().map(|i| v[*i].clone()).collect();
+    }
+    let mid = if recs.is_empty() { 0.0 } else { recs[recs.len() / 2].ts };
+    let mut tracks = vec![];
+    for k in keys {
+        for since in [None, Some(mid)] {
+            let q: crate::web::TrackQuery = serde_json::from_value(json!({"icao24": k, "since": since})).map_err(|e| format!("TrackQuery: {e}"))?;
+            let body = body_of(futures::executor::block_on(crate::web::track(app, q)).map_err(|_| "infallible".to_string())?)?;
+            tracks.push((k.clone(), since, body));
+        }
+    }
+    Ok(WebViews { all, tracks })
+}
+
+impl WebViews {
+    /// The views must be exactly the table: /all = the current snapshots in key order, /track = the stored history of
+    /// that key (strictly later than `since`), `null` for a key that is not in the table.
+    fn compare(&self, g: &Jet1090) -> Result<(), String> {
+        let direct = serde_json::to_string(&g.state_vectors.values().map(|sv| &sv.cur).collect::<Vec<_>>()).map_err(|e| e.to_string())?;
+        if direct != self.all {
+            return Err(format!("all: /all serves {} but the table holds {}", &self.all[..self.all.len().min(300)], &direct[..direct.len().min(300)]));
+        }
+        for (k, since, body) in &self.tracks {
+            // another spelling of an address (upper case, leading zeros dropped) may be answered with `null` or with
+            // the entry of that address - never with anything else
+            let canon = u32::from_str_radix(k, 16).ok().map(|a| format!("{a:06x}")).unwrap_or_default();
+            if g.state_vectors.get(k).is_none() && body == "null" {
+                continue;
+            }
+            let expect = match (g.state_vectors.get(k).or_else(|| g.state_vectors.get(&canon)), since) {
+                (None, _) => "null".to_string(),
+                (Some(sv), None) => serde_json::to_string(&sv.hist).map_err(|e| e.to_string())?,
+                (Some(sv), Some(t)) => serde_json::to_string(&sv.hist.iter().filter(|m| m.timestamp > *t).collect::<Vec<_>>()).map_err(|e| e.to_string())?,
+            };
+            if &expect != body {
+                return Err(format!("track: /track?icao24={k}{} serves {} but the table holds {}", since.map(|t| format!("&since={t}")).unwrap_or_default(), &body[..body.len().min(300)], &expect[..expect.len().min(300)]));
+            }
+        }
+        Ok(())
+    }
 }
 
 const PROVENANCE_FIELDS: [&str; 15] = ["latitude", "longitude", "altitude", "selected_altitude", "groundspeed", "vertical_rate", "track", "ias", "tas", "mach", "roll", "heading", "squawk", "callsign", "nacp"];
@@ -365,7 +443,11 @@ fn judge_recs(recs: &[&Rec], witness: &Value, rep: &Report) -> usize {
             expect.entry(k.clone()).or_default().push(r);
         }
     }
-    for k in table.keys() {
+    if let Some(w) = table.get("~web").and_then(|w| w.as_str()) {
+        let kind = w.split(':').next().unwrap_or("view").to_string();
+        viol(format!("web:{kind}"), format!("the REST view differs from the table: {w}"));
+    }
+    for k in table.keys().filter(|k| !k.starts_with('~')) {
         if !expect.contains_key(k) {
             viol("keys:unexpected-entry".into(), format!("the table has an entry {k} but no record shows that address"));
         }
@@ -425,7 +507,7 @@ fn judge_recs(recs: &[&Rec], witness: &Value, rep: &Report) -> usize {
             }
         }
     }
-    table.len()
+    table.keys().filter(|k| !k.starts_with('~')).count()
 }
 
 /// All histories of exactly `len` records with aircraft symmetry reduction
